@@ -431,7 +431,18 @@ def eval_int_term(t, x):
     if h == "X" and len(t) == 1:
         return x
     if h == "k":
-        return t[1] if isinstance(t[1], (int, bool)) else None
+        c = t[1]
+        if isinstance(c, (int, bool)):
+            return c
+        import datetime as _dt
+        if isinstance(c, _dt.timedelta):
+            return c
+        if isinstance(c, str) and c.startswith("datetime.timedelta(") and c.endswith(")") and all(ch.isalnum() or ch in "=,.() -_" for ch in c):
+            try:
+                return eval(c, {"__builtins__": {}}, {"datetime": _dt})  # the repr of a timedelta constant exported to JSON
+            except Exception:  # noqa: BLE001
+                return None
+        return None
     args = [eval_int_term(a, x) for a in t[1:]]
     if any(a is None for a in args):
         return None
@@ -450,7 +461,7 @@ def eval_int_term(t, x):
             f = {"abs": lambda: abs(a), "neg": lambda: -a, "invert": lambda: ~a, "nonzero": lambda: a != 0, "not": lambda: not a,
                  "int": lambda: int(a), "bit_length": lambda: a.bit_length()}.get(h)
             return None if f is None else f()
-    except (ZeroDivisionError, OverflowError, ValueError):
+    except (ZeroDivisionError, OverflowError, ValueError, TypeError):
         return None
     return None
 
